@@ -1,7 +1,7 @@
 """C16 - LQ-IBE decryption re-derives the encryption key (hash-input agreement)."""
 from .. import schemes, scalar
 
-EXPL = ('Equality of the two pairing values (e(Q, r*sP) = e(s*Q, r*P)) is bilinearity (C01) and is NOT decided here. Decided: '
+EXPL = ('(R-SCHEME) every path segment (entry -> loop head, one loop iteration, loop exit -> return) of the scheme routines is interpreted in the discrete-log domain - group elements are formal Z_r-linear combinations of base symbols with polynomial coefficients, pairings expand bilinearly, cursors and indices are symbolic - and its effect table is compared with the table the construction prescribes for the segment\'s category (attribute present / hidden / slot free in the parent / flags); with the exit conditions this is an inductive argument valid for every number of slots and every attribute list: which generator, which exponent, which randomness reaches which component is decided for all values at once. Equality of the two pairing values (e(Q, r*sP) = e(s*Q, r*P)) is bilinearity (C01) and is NOT decided here. Decided: '
         '(R-PAIR) encrypt and decrypt fill the same members of the hash-input struct from the same sources through the same '
         'encoders (q <- encode(id.q), rp <- encode(ciphertext.rp), pairing <- big-endian pairing value), every member is '
         'written exactly once before the hash callback, which receives (symmetric, symmetric_length, &buffer, sizeof(buffer)) '
